@@ -177,7 +177,18 @@ def rule_typer(repo: Repo) -> List[Ob]:
                   "every assignment of the initial block updates the start state (only user-typed variables are skipped)" if ok else
                   f"initial assignments are evaluated only under `{src(first_wins[0].ast)}`: the first assignment of a variable wins, "
                   "`x = 0; x = x + 1` starts the fixed point from {0} although x is 1 when the loop begins"))
-    # (d) running-symbol rule for variables without initial value: v0 unless never read before assignment
+    # (d) a variable without initial value starts from <name>0 if it is read -- in a right side OR a condition -- before its assignment
+    rs = [n for n in walk_no_nested(f.node) if isinstance(n, ast.AugAssign) and isinstance(n.op, ast.BitOr) and isinstance(n.value, ast.Call) and call_name(n.value) == "get_free_symbols"]
+    key = f"{rp}::{f.qualname}::reads-before-assignment"
+    if not rs:
+        obs.append(inconclusive("E-typer", key, rp, f.node.lineno, f.qualname, "collection of the symbols read before assignment not recognised"))
+    else:
+        kw = {k.arg: k.value for k in rs[0].value.keywords}
+        wc = kw.get("with_condition")
+        bad_ = isinstance(wc, ast.Constant) and wc.value is False
+        obs.append(Ob("E-typer", key, rp, rs[0].lineno, f.qualname, not bad_,
+                      "reads in conditions count as reads of the old value" if not bad_ else
+                      "symbols of conditions are excluded: a variable whose old value is only *tested* before its assignment starts with the empty value set instead of <name>0"))
     return obs
 
 
@@ -249,18 +260,27 @@ def rule_support_default(repo: Repo) -> List[Ob]:
             tests = controlling_tests(c, sink)
             # acceptable: unconditional, or skipped only when the condition is implied by the loop guard (or, for free symbols, with_default)
             bad = []
+            unknown = []
             for t, reach in tests:
                 s = src(t.ast)
                 if "is_implied_by_loop_guard" in s:
-                    # default must be added when NOT implied
+                    # default must be added when the *whole* condition is NOT implied
                     good = (s.startswith("not ") and reach is True) or ("or not" in s and reach is True)
-                    if not good:
-                        bad.append(s)
+                    whole = any(isinstance(x, ast.Call) and call_name(x) == "is_implied_by_loop_guard" and is_self_attr(x.func.value, "condition", selfn) for x in ast.walk(t.ast))
+                    partial = any(isinstance(x, ast.Call) and call_name(x) == "any" for x in ast.walk(t.ast))
+                    if not good or (not whole and partial):
+                        bad.append(s + ("  [implied-ness of a single conjunct is not implied-ness of the condition]" if partial and not whole else ""))
+                    elif not whole:
+                        unknown.append(s)
                 elif mname == "get_free_symbols" and "with_default" in s:
                     continue
                 else:
-                    bad.append(s)
+                    unknown.append(s)
             ok = not bad
+            if ok and unknown:
+                obs.append(inconclusive("A4-support-default", f"{cls.relpath}::{cls.name}.{mname}::default", cls.relpath, adds[0].lineno, m.qualname, f"guard test `{unknown[0]}` not recognised"))
+                n += 1
+                continue
             obs.append(Ob("A4-support-default", f"{cls.relpath}::{cls.name}.{mname}::default", cls.relpath, adds[0].lineno, m.qualname, ok,
                           "the default variable is included unless the condition is implied by the loop guard" if ok else
                           f"the default variable is included only under `{bad[0]}`"))
